@@ -32,7 +32,7 @@ Theorem C01loop_lower_preserves_vars :
 Proof. exact lower_preserves_vars. Qed.
 
 (* the refuted variants are the same lowering with another decision: with the decision of the code as written
-   the parameterised lowering IS the lowering of Lower.v *)
+   the policy-generic lowering IS the lowering of Lower.v *)
 Theorem C01loop_policy_real_is_lower :
   forall (tmp : nat -> N) (s : stmt) (n : nat), lower_stmt_with tmp policy_real s n = lower_stmt tmp s n.
 Proof. exact lower_stmt_with_real. Qed.
